@@ -2,6 +2,8 @@
 from __future__ import annotations
 
 import ast
+
+import ast
 from dataclasses import dataclass
 from typing import Optional, Tuple
 
@@ -334,9 +336,10 @@ def check(repo: Repo, run: Run) -> None:
     # ---- R4 body is total: one return, no raise/loop, only decoding calls
     rets = [r for r in rec.returns if r.kind == "return"]
     raises = [r for r in rec.returns if r.kind == "raise"]
-    run.ob("R4", MOD, "from_kd_buf", "single unconditional return", len(rets) == 1 and not rets[0].pc and not raises
-           and not rec.loops, f"{len(rets)} returns, {len(raises)} raise statements, {len(rec.loops)} loops: decoding is "
-                              f"not a total straight-line function", nontrivial=False)
+    run.ob("R4", MOD, "from_kd_buf", "single unconditional return", len(rets) == 1 and not rets[0].pc and not raises,
+           f"{len(rets)} returns, {len(raises)} raise statements: decoding is not a total function of the record",
+           nontrivial=False)
+    undecided = []
     if rec.notes:
         raise AnalysisError(f"from_kd_buf uses an unsupported construct: {rec.notes[0]}")
     if not rets:
@@ -383,6 +386,36 @@ def check(repo: Repo, run: Run) -> None:
                           and not (x.op == "global" and x.a[0] in ("struct.unpack", "struct.unpack_from", "int.from_bytes"))
                           and not (x.op == "attr" and x.a[0].op == "builtin")})
         if foreign:
+            # an immutable module-level object (a compiled pattern, a struct.Struct) and what is computed from the record
+            # with it are not state: the field may well be a function of the record's bytes alone, but not one the byte-level
+            # evaluation below can follow - undecided, not a violation
+            def stateless(x):
+                if x.op == "global" and x.a[0].startswith("pykdebugparser."):
+                    f_ = repo.lookup(x.a[0])
+                    if f_ and f_[0] == "const" and isinstance(f_[2], ast.Call) and \
+                            (repo.dotted(f_[1], f_[2].func) or "") in ("re.compile", "struct.Struct") \
+                            and all(isinstance(a_, (ast.Constant, ast.BinOp, ast.Name, ast.Attribute)) for a_ in f_[2].args):
+                        return True
+                if x.op == "attr":
+                    return stateless(x.a[0])
+                if x.op == "elem":
+                    return True         # what is iterated is walked, and judged, on its own
+                return False
+            dotless = _pattern_dot_without_dotall(repo, bound[name])
+            if dotless is not None:
+                run.ob("R2", MOD, "from_kd_buf", f"field {name}", False,
+                       f"{name} is cut out of the record with the pattern {dotless[1]!r} ({dotless[0]}) whose `.` does not match the "
+                       f"byte 0x0a (no re.DOTALL): for a record with that byte in the field the pieces are not the field's words",
+                       facts={"term": sym.pretty(bound[name])[:200]},
+                       witness="a record whose argument bytes contain 0x0a, e.g. an argument equal to 10")
+                continue
+            if all(stateless(x) for x in sym.walk(bound[name])
+                   if x.op in ("global", "attr", "param", "widen", "elem", "lambda")
+                   and not (x.op == "param" and x == inp)
+                   and not (x.op == "global" and x.a[0] in ("struct.unpack", "struct.unpack_from", "int.from_bytes"))
+                   and not (x.op == "attr" and x.a[0].op == "builtin")):
+                undecided.append(f"field {name} is computed through {foreign[:2]}: outside what the byte-level evaluation follows")
+                continue
             run.ob("R2", MOD, "from_kd_buf", f"field {name}", False,
                    f"{name} depends on {foreign[:3]}: the decoded field is not a function of the record's own bytes alone "
                    f"(a table, cache or other state decides the value for some records)",
@@ -480,9 +513,69 @@ def check(repo: Repo, run: Run) -> None:
         # own: the operations inside it are recorded, and judged, as the caller's
         inlined = f.op == "func" and c.result is not None and not (c.result.op == "call" and c.result.a[0] == f)
         ok = nm in allowed_calls or nm.endswith("kevent.Kevent") or nm in ("tuple", "list", "int", "bytes") or inlined
+        if not ok and c.func.op in ("attr", "global", "builtin"):
+            # an operation this rule has no totality fact about: undecided (reported only if nothing else is wrong)
+            undecided.append(f"from_kd_buf calls {nm}: not one of the decoding operations known to be total")
+            continue
         run.ob("R4", MOD, "from_kd_buf", f"call {nm}", ok,
                "" if ok else f"from_kd_buf calls {nm}, which is outside the total decoding operations",
                nontrivial=False, line=c.lineno)
+    if undecided:
+        # decided at the end of the run: a violation found on the way is reported as such, otherwise exit 2
+        run.floor_failures.append("C01: " + undecided[0] + (f" (+{len(undecided) - 1} more)" if len(undecided) > 1 else ""))
+
+
+def _pattern_dot_without_dotall(repo, term):
+    """(constant name, pattern) of a module-level `re.compile(<constant pattern>[, flags])` used in the term whose pattern
+    contains `.` while DOTALL is not in force - None otherwise (also when the pattern cannot be evaluated)."""
+    import re
+    from .. import consteval
+    for x in sym.walk(term):
+        if not (x.op == "global" and x.a[0].startswith("pykdebugparser.")):
+            continue
+        f_ = repo.lookup(x.a[0])
+        if not (f_ and f_[0] == "const" and isinstance(f_[2], ast.Call) and (repo.dotted(f_[1], f_[2].func) or "") == "re.compile"
+                and f_[2].args):
+            continue
+        pat = consteval.evaluate(repo, f_[1], f_[2].args[0])
+        if not isinstance(pat, (bytes, str)):
+            continue
+        flags = 0
+        fl_nodes = list(f_[2].args[1:2]) + [k.value for k in f_[2].keywords if k.arg == "flags"]
+        known = True
+        for fn_ in fl_nodes:
+            for part in ast.walk(fn_):
+                if isinstance(part, ast.Attribute) and isinstance(part.value, ast.Name) and part.value.id == "re":
+                    v = getattr(re, part.attr, None)
+                    if isinstance(v, re.RegexFlag):
+                        flags |= int(v)
+                    else:
+                        known = False
+                elif isinstance(part, (ast.Name, ast.Call)) and not (isinstance(part, ast.Name) and part.id == "re"):
+                    known = False
+        if not known:
+            continue
+        try:
+            parsed = re._parser.parse(pat, flags)
+        except Exception:
+            continue
+        if parsed.state.flags & int(re.DOTALL):
+            continue
+
+        def has_any(items):
+            for op, av in items:
+                if str(op) == "ANY":
+                    return True
+                if isinstance(av, tuple):
+                    for y in av:
+                        if hasattr(y, "data") and has_any(y.data):
+                            return True
+                        if isinstance(y, list) and y and isinstance(y[0], tuple) and has_any(y):
+                            return True
+            return False
+        if has_any(parsed.data):
+            return x.a[0].rsplit(".", 1)[1], pat
+    return None
 
 
 def _same(got, want) -> bool:
